@@ -250,3 +250,34 @@ func verifC17Parsed(x string, entry int) {
 		verifC17Many(roots, false)
 	}
 }
+
+// verifC17Light: full order/path check plus pruning/stopping at a few positions
+// (first, second, middle, last node) - for large parsed trees.
+func verifC17Light(x string, entry int) {
+	nodes, _, _ := verifParse(entry, x)
+	for _, root := range nodes {
+		if verifIsNil(root) {
+			continue
+		}
+		total := verifC17Tree(root, -1)
+		cands := []int{0, 1, total / 2, total - 1}
+		k := cands[verifChoice(len(cands))]
+		if k < 0 || k >= total {
+			k = 0
+		}
+		verifC17Tree(root, k)
+		full := verifExpectVisits(root, -1)
+		calls := 0
+		ast.Preorder(root)(func(n ast.Node) bool {
+			if calls >= len(full) || !verifSameNode(n, full[calls].node) {
+				verifFail("C17/preorder-order", "")
+			}
+			calls++
+			return calls <= k
+		})
+		if calls != k+1 {
+			verifFail("C17/preorder-does-not-stop", "")
+		}
+	}
+	verifReach("C17/ok")
+}
